@@ -94,10 +94,16 @@ class Context:
         o.verdict = NOTE
         return o
 
-    def require(self, cond, msg: str):
-        """Schema-level anchor: when it is gone the analysis cannot run (exit 2), never a silent pass."""
-        if not cond:
-            raise AnalysisError(msg)
+    def require(self, cond, msg: str, rules=None):
+        """Schema-level anchor: when it is gone the analysis cannot run (exit 2), never a silent pass.  `rules` names the rules
+        the anchor belongs to: it only counts for a property that one of them serves (an analysis module holds rules of several
+        properties; a vanished anchor of one of them must not break the checks of the others)."""
+        if cond:
+            return
+        cur = getattr(self, "current_rules", None)
+        if rules is not None and cur is not None and not (set(rules) & set(cur)):
+            return
+        raise AnalysisError(msg)
 
 
 # ---------------------------------------------------------------------------------------------- known findings
